@@ -151,7 +151,8 @@ func (g *G) method(s *m.Service, scope map[string]bool) {
 	hasBodyVerb := true
 	verb := rapid.SampledFrom(bodyVerbs).Draw(t, "verb")
 	streaming := ""
-	if g.p.Streaming && g.p.Runtime && rapid.IntRange(0, 3).Draw(t, "streams") != 0 {
+	// (rapid favours small integers: the draw is mixed before it is compared with the share)
+	if g.p.Streaming && g.p.Runtime && (rapid.IntRange(0, 9999).Draw(t, "streams")*7919+37)%100 < g.p.streamPercent() {
 		// a streaming endpoint: websocket upgrade of a GET request, the payload travels in path, query and headers
 		streaming = rapid.SampledFrom([]string{"result", "payload", "bidirectional", "bidirectional"}).Draw(t, "streamkind")
 		verb, hasBodyVerb = "GET", false
